@@ -50,8 +50,10 @@ def main():
         result["suite_passes_with_change"] = rc == 0
         if rc != 0:
             print(out[-2000:])
+        os.makedirs(os.path.dirname(f"{wt}/{dest_rel}"), exist_ok=True)
         shutil.copy(f"{src}/demo_test.go", f"{wt}/{dest_rel}")
-        demo = f"go test -vet=off {'-race ' if race else ''}-count=1 -run '{testname}' ./{pkgdir}/"
+        arch = "GOARCH=386 " if "GOARCH=386" in demo_cmd else ""
+        demo = f"{arch}go test -vet=off {'-race ' if race else ''}-count=1 -run '{testname}' ./{pkgdir}/"
         result["demo_cmd"] = demo
         rc, out = run(demo, wt)
         result["demo_fails_with_change"] = rc != 0 and ("FAIL" in out)
